@@ -215,7 +215,6 @@ func init() {
 				r.Eval(1)
 				r.Trans(len(hist))
 				if f != nil {
-					f.Sig += " (long walk)"
 					r.Report(f)
 					r.Outcome(f.Sig)
 				}
